@@ -143,8 +143,8 @@ class FakeServer:
 
 # --------------------------------------------------------------------------- wire helpers
 
-LSERVER, LPUMP, LRCALL, LRRUN, LRCANCEL, LSEND, LCCALL, LCRUN = range(8)
-LNAMES = ['Server', 'Pump', 'RecvCall', 'RecvRun', 'RecvCancel', 'Send', 'CloseCall', 'CloseRun']
+LSERVER, LPUMP, LRCALL, LRRUN, LRCANCEL, LSEND, LCCALL, LCRUN, LCBAD = range(9)
+LNAMES = ['Server', 'Pump', 'RecvCall', 'RecvRun', 'RecvCancel', 'Send', 'CloseCall', 'CloseRun', 'CloseBad']
 
 
 def ev_wire(e):
@@ -231,6 +231,8 @@ class Real:
             return [2] if ex.code is None else [2, ex.code]
         if isinstance(ex, AssertionError):
             return [4]
+        if isinstance(ex, ValueError):
+            return [6]
         if isinstance(ex, asyncio.InvalidStateError):
             return [5]
         return [99, type(ex).__name__ + ': ' + str(ex)[:80]]
@@ -266,6 +268,7 @@ class Real:
         out.append(LSEND)
         if o[5] == 0:
             out.append(LCCALL)
+            out.append(LCBAD)
         if o[5] == 1:
             out.append(LCRUN)
         return out
@@ -302,6 +305,10 @@ class Real:
             self.ctl = loop.create_task(self.ws.close())
             loop.step_task(self.ctl)
         elif k == LCRUN:
+            loop.step_task(self.ctl)
+        elif k == LCBAD:
+            # close(<invalid code>): the application swallows the ValueError and carries on
+            self.ctl = loop.create_task(self.ws.close(999))
             loop.step_task(self.ctl)
         if self.recv is not None and self.recv.done():
             new.append([0, self.result_of(self.recv)])
@@ -379,12 +386,12 @@ def gen_sent(rng, kmax):
 def make_chooser(rng, profile):
     """random choice among the enabled labels, weighted by a profile"""
     w = {
-        'mixed': [5, 5, 4, 5, 1, 1, 0.4, 5],
-        'pumpfirst': [8, 8, 2, 3, 0.5, 0.5, 0.2, 5],
-        'recvfirst': [3, 3, 8, 8, 1, 0.5, 0.2, 5],
-        'closey': [4, 4, 3, 3, 1, 1, 2, 3],
-        'cancely': [4, 4, 5, 3, 4, 0.5, 0.3, 4],
-        'sendy': [4, 4, 2, 3, 0.5, 4, 0.3, 4],
+        'mixed': [5, 5, 4, 5, 1, 1, 0.4, 5, 0.4],
+        'pumpfirst': [8, 8, 2, 3, 0.5, 0.5, 0.2, 5, 0.3],
+        'recvfirst': [3, 3, 8, 8, 1, 0.5, 0.2, 5, 0.5],
+        'closey': [4, 4, 3, 3, 1, 1, 2, 3, 1.5],
+        'cancely': [4, 4, 5, 3, 4, 0.5, 0.3, 4, 0.3],
+        'sendy': [4, 4, 2, 3, 0.5, 4, 0.3, 4, 0.3],
     }[profile]
     state = {'n': 0}
 
@@ -435,7 +442,7 @@ def exhaustive(falcon, cap, sent, depth, limits, budget, out, flush=None, stop=N
         prefix = stack.pop()
         res = run_real(falcon, cap, sent, labels=list(prefix))
         en = res['enabled_end']
-        cnt = [0] * 8
+        cnt = [0] * 9
         for l in prefix:
             cnt[l[0]] += 1
         nxt = []
@@ -448,6 +455,8 @@ def exhaustive(falcon, cap, sent, depth, limits, budget, out, flush=None, stop=N
                 if l == LCCALL and cnt[LCCALL] >= limits[2]:
                     continue
                 if l == LRCANCEL and cnt[LRCANCEL] >= limits[3]:
+                    continue
+                if l == LCBAD and cnt[LCBAD] >= (limits[4] if len(limits) > 4 else 0):
                     continue
                 nxt.append((l, cnt[LSEND] + 1) if l == LSEND else (l,))
         if not nxt:
@@ -628,10 +637,10 @@ def main(ctx):
     # 1. exhaustive small bounds
     ex_runs = []
     if quick:
-        bounds = [(1, [('m', 1), ('d', 1001)], 9, (2, 1, 1, 1), 4000),
+        bounds = [(1, [('m', 1), ('d', 1001)], 9, (2, 1, 1, 1, 1), 4000),
                   (0, [('m', 1), ('d', 1001)], 7, (2, 1, 1, 1), 1500)]
     else:
-        bounds = [(1, [('m', 1), ('m', 2), ('d', 1001)], 12, (3, 1, 1, 1), 120000),
+        bounds = [(1, [('m', 1), ('m', 2), ('d', 1001)], 12, (3, 1, 1, 1, 1), 120000),
                   (2, [('m', 1), ('m', 2), ('d', 1001)], 11, (3, 1, 1, 1), 80000),
                   (1, [('m', 1), ('m', 2)], 11, (2, 1, 1, 1), 60000),
                   (0, [('m', 1), ('d', None)], 9, (2, 1, 1, 1), 20000)]
